@@ -1,8 +1,8 @@
 package props
 
 import (
-	"path/filepath"
 	"fmt"
+	"path/filepath"
 	"strconv"
 	"strings"
 	"time"
